@@ -93,7 +93,7 @@ def vecOps (nz : Path → Bool → R) : Ops K R where
     else (lin (coefs (Gen.split_HR_W sqrt s m e)) par.1 par.2 x1 x2, lin (coefs (Gen.split_HR_H sqrt s m e)) par.1 par.2 x1 x2)
   noise := nz
   zero := 0
-  agg := fun _ acc _ _ _ => acc
+  agg := fun _ acc _ _ v => (acc.1 + v.1, acc.2)   -- the increment part of the aggregation loop (`Model.aggStep`); H not modelled here
   toU := fun wh _ _ => wh.1
 
 /-- **tie to the regenerated kernels**: on coefficient vectors (`R = ι → K`) the vector-valued split is the regenerated scalar kernel
